@@ -469,7 +469,10 @@ struct optional<T&> {
     }
 
     template <typename U = T>
-        requires(not is_same_v<remove_cvref_t<U>, optional>)
+        requires(
+            not is_same_v<remove_cvref_t<U>, optional>
+            and (is_constructible_v<add_lvalue_reference_t<T>, U> or not is_lvalue_reference_v<U>)
+        )
     constexpr explicit(not is_convertible_v<U, T>) optional(U&& v)
         : _ptr(etl::addressof(v))
     {
